@@ -51,6 +51,9 @@ def cases(tier, seed):
                 # the supported transfer syntaxes were assigned after the entity had been constructed (with other ones)
                 yield {'served': served, 'sup': sup, 'n': 1, 'a1': a, 'late_ts': True}
             yield {'served': served, 'sup': sup, 'n': 2, 'a1': sup % 3, 'l1': sup % 10, 'late_ts': True}
+            for sup2 in ((sup * 7 + 3) % 16, 15 - sup):
+                if sup2 != sup:
+                    yield {'served': served, 'sup': sup, 'n': 1, 'a1': served % 3 if served else 0, 'sup2': sup2}
 
 
 def _requests(case, thorough_lists):
@@ -98,133 +101,139 @@ def run_case(case):
         ae.add_scp(svcs[s])
     viol = []
     nreq = 0
-    if 'req' in case:
-        reqs = [[tuple([r[0], r[1], tuple(r[2])]) for r in case['req']]]
-    else:
-        reqs = _requests(case, None)
-    for req in reqs:
-        nreq += 1
-        ctxs = [(cid, ABS[a], [TS[i] for i in l]) for cid, a, l in req]
-        where = 'served=%r supported=%r request=%r' % (served, sup, ctxs)
-        sigb = 'c09:'
-        acc = assoc.make_acceptor(ae)
-        rq = assoc.decode_pdu(assoc.rq_tree(ctxs, called='SCP-TITLE', calling='SCU-TITLE'))
-        at_send = []
-        acc.dul.on_send = lambda dul, item: at_send.append({k: (str(v[1]), str(v[2])) for k, v in dul.accepted_contexts.items()})
-        try:
-            acc.accept(rq)
-        except Exception as exc:
-            viol.append((sigb + 'accept-raises', 'accept() raised %r (%s)' % (exc, where)))
-            continue
-        sent = [p for p in acc.dul.sent if getattr(p, 'pdu_type', None) == 2]
-        if len(sent) != 1 or len(acc.dul.sent) != 1:
-            viol.append((sigb + 'reply-count', 'accept() handed %r to the provider (%s)' % (acc.dul.sent, where)))
-            continue
-        try:
-            ac = pdugen.to_tree(type(sent[0]).decode(sent[0].encode()))
-        except Exception as exc:
-            viol.append((sigb + 'reply-unencodable', 'A-ASSOCIATE-AC cannot be encoded: %r (%s)' % (exc, where)))
-            continue
-        pcs = [i for i in ac['items'] if i['t'] == 0x21]
-        if [p['id'] for p in pcs] != [c[0] for c in ctxs]:
-            viol.append((sigb + 'ids', 'reply context ids %r, proposed %r (%s)' % ([p['id'] for p in pcs], [c[0] for c in ctxs], where)))
-            continue
-        expected_accept = {}
-        for (cid, ab, tl), p in zip(ctxs, pcs):
-            ok = ab in served and any(t in sup for t in tl)
-            if (p['result'] == 0) != ok:
-                viol.append((sigb + ('accepted-unacceptable' if p['result'] == 0 else 'rejected-acceptable'),
-                             'context %d (%s, %r): result %d, reference says %s (%s)' % (cid, ab, tl, p['result'], 'accept' if ok else 'reject', where)))
-            if p['result'] == 0:
-                if p['ts']['name'] not in tl or p['ts']['name'] not in sup:
-                    viol.append((sigb + 'ts-choice', 'context %d answered with transfer syntax %r, proposed %r, supported %r'
-                                 % (cid, p['ts']['name'], tl, sup)))
-                expected_accept[cid] = (ab, p['ts']['name'])
-        if ac['called'] != 'SCP-TITLE' or ac['calling'] != 'SCU-TITLE':
-            viol.append((sigb + 'ae-titles', 'reply titles called=%r calling=%r' % (ac['called'], ac['calling'])))
-        apps = [i for i in ac['items'] if i['t'] == 0x10]
-        if len(apps) != 1 or apps[0]['name'] != pdugen.APP_CTX:
-            viol.append((sigb + 'app-context', 'reply application context items %r' % (apps,)))
-        # the provider thread sends the reply and may read the peer's first message before accept() returns: what it needs to
-        # decode that message must be in place when the reply is handed over
-        if at_send and at_send[0] != expected_accept:
-            viol.append((sigb + 'provider-table-late', 'when the A-ASSOCIATE-AC was handed to the provider, the provider\'s accepted contexts were %r; '
-                         'the reply accepts %r (%s)' % (at_send[0], expected_accept, where)))
-        # internal tables = what was reported
-        tables = {'accepted_contexts': acc.accepted_contexts, 'sop_classes_as_scp': acc.sop_classes_as_scp,
-                  'dul.accepted_contexts': acc.dul.accepted_contexts}
-        for tname, tab in tables.items():
-            got = {k: (str(v[1]), str(v[2])) for k, v in tab.items()}
-            if got != expected_accept:
-                viol.append((sigb + 'table:' + tname, '%s=%r but the reply accepted %r (%s)' % (tname, got, expected_accept, where)))
-        # dispatch through the real _loop
-        for cid in [c[0] for c in ctxs] + [77]:
-            ab = dict((c[0], c[1]) for c in ctxs).get(cid, A)
-            for s in svcs.values():
-                s.calls = []
-            msg = msggen.make('CEchoRQMessage', sop_class=ab)
-            acc.dul.inbox.clear()
-            acc.dul.inbox.append((msg, cid))
-            acc.is_killed = False
-            outcome = None
+    last = []
+    phases = [sup] + ([[t for i, t in enumerate(TS) if case['sup2'] >> i & 1]] if 'sup2' in case else [])
+    for phase, sup in enumerate(phases):
+        if phase:
+            # the entity is re-configured between two negotiations of the same proposals: the second answers follow the new set
+            ae.supported_ts = frozenset(sup)
+        if 'req' in case:
+            reqs = [[tuple([r[0], r[1], tuple(r[2])]) for r in case['req']]]
+        else:
+            reqs = _requests(case, None)
+        for req in reqs:
+            nreq += 1
+            ctxs = [(cid, ABS[a], [TS[i] for i in l]) for cid, a, l in req]
+            where = 'served=%r supported=%r%s request=%r' % (served, sup, ' (assigned after an earlier negotiation with %r)' % (phases[0],) if phase else '', ctxs)
+            sigb = 'c09:'
+            acc = assoc.make_acceptor(ae)
+            rq = assoc.decode_pdu(assoc.rq_tree(ctxs, called='SCP-TITLE', calling='SCU-TITLE'))
+            at_send = []
+            acc.dul.on_send = lambda dul, item: at_send.append({k: (str(v[1]), str(v[2])) for k, v in dul.accepted_contexts.items()})
             try:
-                acc._loop()
-                outcome = 'returned'
-            except exceptions.ClassNotSupportedError:
-                outcome = 'not-supported'
-            except exceptions.DCMTimeoutError:
-                outcome = 'served'
+                acc.accept(rq)
             except Exception as exc:
-                outcome = 'raised %r' % (exc,)
-            calls = [(s.name, c[1]) for s in svcs.values() for c in s.calls]
-            if cid in expected_accept:
-                exp_ctx = asceprovider.PContextDef(cid, expected_accept[cid][0], expected_accept[cid][1])
-                good = (outcome == 'served' and len(calls) == 1 and calls[0][0] == 'svc-' + expected_accept[cid][0] and
-                        tuple(map(str, calls[0][1])) == tuple(map(str, exp_ctx)))
-                if not good:
-                    viol.append((sigb + 'dispatch-accepted', 'message on accepted context %d: outcome %s, service calls %r, expected %r (%s)'
-                                 % (cid, outcome, calls, exp_ctx, where)))
-            else:
-                if outcome != 'not-supported' or calls:
-                    viol.append((sigb + 'dispatch-unaccepted', 'message on context %d that was not accepted: outcome %s, service calls %r (%s)'
-                                 % (cid, outcome, calls, where)))
-        # several messages through ONE run of the dispatch loop: every order of two accepted contexts, and an accepted one
-        # followed by one that was not accepted (same SOP class) - the loop must not carry anything over from message to message
-        ab_of = dict((c[0], c[1]) for c in ctxs)
-        acc_ids = [c[0] for c in ctxs if c[0] in expected_accept]
-        seqs = [list(p) for p in itertools.permutations(acc_ids, 2)] + [[a_, a_] for a_ in acc_ids[:1]]
-        seqs += [[g, b] for g in acc_ids for b in [c[0] for c in ctxs if c[0] not in expected_accept] + [77]]
-        for seq in seqs:
-            for s in svcs.values():
-                s.calls = []
-            acc.dul.inbox.clear()
-            for cid in seq:
-                cls_uid = ab_of.get(cid, ab_of[seq[0]])
-                if cid not in expected_accept:
-                    cls_uid = ab_of[seq[0]]          # a message of the class just served, on a context that was not accepted
-                acc.dul.inbox.append((msggen.make('CEchoRQMessage', sop_class=cls_uid), cid))
-            acc.is_killed = False
+                viol.append((sigb + 'accept-raises', 'accept() raised %r (%s)' % (exc, where)))
+                continue
+            sent = [p for p in acc.dul.sent if getattr(p, 'pdu_type', None) == 2]
+            if len(sent) != 1 or len(acc.dul.sent) != 1:
+                viol.append((sigb + 'reply-count', 'accept() handed %r to the provider (%s)' % (acc.dul.sent, where)))
+                continue
             try:
-                acc._loop()
-                outcome = 'returned'
-            except exceptions.ClassNotSupportedError:
-                outcome = 'not-supported'
-            except exceptions.DCMTimeoutError:
-                outcome = 'served'
+                ac = pdugen.to_tree(type(sent[0]).decode(sent[0].encode()))
             except Exception as exc:
-                outcome = 'raised %r' % (exc,)
-            calls = [tuple(map(str, c[1])) for s in svcs.values() for c in s.calls]
-            good_ids = [cid for cid in seq if cid in expected_accept]
-            exp_calls = [tuple(map(str, asceprovider.PContextDef(cid, expected_accept[cid][0], expected_accept[cid][1]))) for cid in good_ids]
-            exp_out = 'served' if len(good_ids) == len(seq) else 'not-supported'
-            if outcome != exp_out or sorted(calls) != sorted(exp_calls) or (len(set(expected_accept[c][0] for c in good_ids)) == 1 and calls != exp_calls):
-                viol.append((sigb + 'dispatch-sequence', 'messages on contexts %r in one run of the dispatch loop: outcome %s, services called with %r, '
-                             'expected %s with %r (%s)' % (seq, outcome, calls, exp_out, exp_calls, where)))
-        if len(viol) > 20:
-            break
-        last = req
+                viol.append((sigb + 'reply-unencodable', 'A-ASSOCIATE-AC cannot be encoded: %r (%s)' % (exc, where)))
+                continue
+            pcs = [i for i in ac['items'] if i['t'] == 0x21]
+            if [p['id'] for p in pcs] != [c[0] for c in ctxs]:
+                viol.append((sigb + 'ids', 'reply context ids %r, proposed %r (%s)' % ([p['id'] for p in pcs], [c[0] for c in ctxs], where)))
+                continue
+            expected_accept = {}
+            for (cid, ab, tl), p in zip(ctxs, pcs):
+                ok = ab in served and any(t in sup for t in tl)
+                if (p['result'] == 0) != ok:
+                    viol.append((sigb + ('accepted-unacceptable' if p['result'] == 0 else 'rejected-acceptable'),
+                                 'context %d (%s, %r): result %d, reference says %s (%s)' % (cid, ab, tl, p['result'], 'accept' if ok else 'reject', where)))
+                if p['result'] == 0:
+                    if p['ts']['name'] not in tl or p['ts']['name'] not in sup:
+                        viol.append((sigb + 'ts-choice', 'context %d answered with transfer syntax %r, proposed %r, supported %r'
+                                     % (cid, p['ts']['name'], tl, sup)))
+                    expected_accept[cid] = (ab, p['ts']['name'])
+            if ac['called'] != 'SCP-TITLE' or ac['calling'] != 'SCU-TITLE':
+                viol.append((sigb + 'ae-titles', 'reply titles called=%r calling=%r' % (ac['called'], ac['calling'])))
+            apps = [i for i in ac['items'] if i['t'] == 0x10]
+            if len(apps) != 1 or apps[0]['name'] != pdugen.APP_CTX:
+                viol.append((sigb + 'app-context', 'reply application context items %r' % (apps,)))
+            # the provider thread sends the reply and may read the peer's first message before accept() returns: what it needs to
+            # decode that message must be in place when the reply is handed over
+            if at_send and at_send[0] != expected_accept:
+                viol.append((sigb + 'provider-table-late', 'when the A-ASSOCIATE-AC was handed to the provider, the provider\'s accepted contexts were %r; '
+                             'the reply accepts %r (%s)' % (at_send[0], expected_accept, where)))
+            # internal tables = what was reported
+            tables = {'accepted_contexts': acc.accepted_contexts, 'sop_classes_as_scp': acc.sop_classes_as_scp,
+                      'dul.accepted_contexts': acc.dul.accepted_contexts}
+            for tname, tab in tables.items():
+                got = {k: (str(v[1]), str(v[2])) for k, v in tab.items()}
+                if got != expected_accept:
+                    viol.append((sigb + 'table:' + tname, '%s=%r but the reply accepted %r (%s)' % (tname, got, expected_accept, where)))
+            # dispatch through the real _loop
+            for cid in [c[0] for c in ctxs] + [77]:
+                ab = dict((c[0], c[1]) for c in ctxs).get(cid, A)
+                for s in svcs.values():
+                    s.calls = []
+                msg = msggen.make('CEchoRQMessage', sop_class=ab)
+                acc.dul.inbox.clear()
+                acc.dul.inbox.append((msg, cid))
+                acc.is_killed = False
+                outcome = None
+                try:
+                    acc._loop()
+                    outcome = 'returned'
+                except exceptions.ClassNotSupportedError:
+                    outcome = 'not-supported'
+                except exceptions.DCMTimeoutError:
+                    outcome = 'served'
+                except Exception as exc:
+                    outcome = 'raised %r' % (exc,)
+                calls = [(s.name, c[1]) for s in svcs.values() for c in s.calls]
+                if cid in expected_accept:
+                    exp_ctx = asceprovider.PContextDef(cid, expected_accept[cid][0], expected_accept[cid][1])
+                    good = (outcome == 'served' and len(calls) == 1 and calls[0][0] == 'svc-' + expected_accept[cid][0] and
+                            tuple(map(str, calls[0][1])) == tuple(map(str, exp_ctx)))
+                    if not good:
+                        viol.append((sigb + 'dispatch-accepted', 'message on accepted context %d: outcome %s, service calls %r, expected %r (%s)'
+                                     % (cid, outcome, calls, exp_ctx, where)))
+                else:
+                    if outcome != 'not-supported' or calls:
+                        viol.append((sigb + 'dispatch-unaccepted', 'message on context %d that was not accepted: outcome %s, service calls %r (%s)'
+                                     % (cid, outcome, calls, where)))
+            # several messages through ONE run of the dispatch loop: every order of two accepted contexts, and an accepted one
+            # followed by one that was not accepted (same SOP class) - the loop must not carry anything over from message to message
+            ab_of = dict((c[0], c[1]) for c in ctxs)
+            acc_ids = [c[0] for c in ctxs if c[0] in expected_accept]
+            seqs = [list(p) for p in itertools.permutations(acc_ids, 2)] + [[a_, a_] for a_ in acc_ids[:1]]
+            seqs += [[g, b] for g in acc_ids for b in [c[0] for c in ctxs if c[0] not in expected_accept] + [77]]
+            for seq in seqs:
+                for s in svcs.values():
+                    s.calls = []
+                acc.dul.inbox.clear()
+                for cid in seq:
+                    cls_uid = ab_of.get(cid, ab_of[seq[0]])
+                    if cid not in expected_accept:
+                        cls_uid = ab_of[seq[0]]          # a message of the class just served, on a context that was not accepted
+                    acc.dul.inbox.append((msggen.make('CEchoRQMessage', sop_class=cls_uid), cid))
+                acc.is_killed = False
+                try:
+                    acc._loop()
+                    outcome = 'returned'
+                except exceptions.ClassNotSupportedError:
+                    outcome = 'not-supported'
+                except exceptions.DCMTimeoutError:
+                    outcome = 'served'
+                except Exception as exc:
+                    outcome = 'raised %r' % (exc,)
+                calls = [tuple(map(str, c[1])) for s in svcs.values() for c in s.calls]
+                good_ids = [cid for cid in seq if cid in expected_accept]
+                exp_calls = [tuple(map(str, asceprovider.PContextDef(cid, expected_accept[cid][0], expected_accept[cid][1]))) for cid in good_ids]
+                exp_out = 'served' if len(good_ids) == len(seq) else 'not-supported'
+                if outcome != exp_out or sorted(calls) != sorted(exp_calls) or (len(set(expected_accept[c][0] for c in good_ids)) == 1 and calls != exp_calls):
+                    viol.append((sigb + 'dispatch-sequence', 'messages on contexts %r in one run of the dispatch loop: outcome %s, services called with %r, '
+                                 'expected %s with %r (%s)' % (seq, outcome, calls, exp_out, exp_calls, where)))
+            if len(viol) > 20:
+                break
+            last = req
     return {'viol': viol[:20], 'case': dict(case, req=[list(r) for r in last]) if viol and nreq else (case if viol else None),
-            'key': (case['served'], case['sup'], case['n'], case.get('a1'), case.get('l1'), case.get('pre_scu'), case.get('late_ts')),
+            'key': (case['served'], case['sup'], case['n'], case.get('a1'), case.get('l1'), case.get('pre_scu'), case.get('late_ts'), case.get('sup2')),
             'count': {'accept_calls': nreq},
             'sample': {'served': served, 'supported': sup, 'request': ctxs} if case['n'] == 2 and case['sup'] == 5 and case['served'] == 3 and case['a1'] == 0 and case['l1'] == 4 else None}
 
